@@ -26,7 +26,7 @@ SOLVERS = {
 }
 ORDER = ['z3-5.1', 'cvc5-1.0.3', 'z3-4.8.12']
 
-MAXPAR = int(os.environ.get('PYVC_JOBS', '5'))
+MAXPAR = int(os.environ.get('PYVC_JOBS', '8'))
 
 
 def solver_versions():
@@ -95,7 +95,23 @@ def _classify(out, err, dt, timeout):
     return first
 
 
-def solve(text, timeout=30, tier='quick', order=None):
+def solve(text, timeout=30, tier='quick', order=None, pre_text=None):
+    """quick tier: most obligations are discharged by z3 5.1 in milliseconds, so it is tried alone first with a short
+    budget; anything else goes to the full racing portfolio with the full budget."""
+    if pre_text is not None:
+        # stage 0: recursive specification functions left uninterpreted (weaker hypotheses: a proof found here is valid and
+        # is not disturbed by the solver's unfolding heuristics, which made some proofs unstable)
+        v, dt, out, err = run_one('z3-5.1', pre_text, 3)
+        if v == 'unsat':
+            return Result('unsat', 'z3-5.1(opaque-specs)', dt, {'z3-5.1(opaque-specs)': (v, dt, out)})
+    if tier == 'quick' and order is None:
+        v, dt, out, err = run_one('z3-5.1', text, 3)
+        if v == 'unsat':
+            return Result('unsat', 'z3-5.1', dt, {'z3-5.1': (v, dt, out)})
+    return solve_race(text, timeout, tier, order)
+
+
+def solve_race(text, timeout=30, tier='quick', order=None):
     """Race the portfolio on one query.  quick: first definite answer wins and the others are killed;
     thorough: every solver runs to completion and a sat/unsat disagreement is an error."""
     order = order or ORDER
@@ -164,7 +180,11 @@ def solve_many(jobs, timeout=30, tier='quick', progress=None):
     """jobs: list of (key, smt_text).  Returns {key: Result}.  Runs MAXPAR queries at once."""
     res = {}
     with ThreadPoolExecutor(max_workers=MAXPAR) as ex:
-        futs = {ex.submit(solve, text, timeout, tier): key for key, text in jobs}
+        futs = {}
+        for job in jobs:
+            key, text = job[0], job[1]
+            pre = job[2] if len(job) > 2 else None
+            futs[ex.submit(solve, text, timeout, tier, None, pre)] = key
         for f in futs:
             pass
         for f, key in futs.items():
